@@ -66,6 +66,18 @@ BuiltMatches(m, p) ==
     /\ SeqRange(p.ignore) = SeqRange(m.ignore)
 
 (* --------------------------- round trip (C01) -------------------------- *)
+\* "up to removal of exact consecutive duplicates": D is T with some (none, all) of the repeats inside each run of equal
+\* consecutive elements removed.  (The writer drops a token whose RAW fields equal its predecessor's; two tokens that are
+\* observably equal but differ in an unobservable field -- a name id left dangling by remove_names(), the original position
+\* of a source-less token -- are both written.  The statements allow either.)
+RunLen(s) == CHOOSE n \in 1..Len(s) : (\A i \in 1..n : s[i] = s[1]) /\ (n = Len(s) \/ s[n + 1] # s[1])
+RECURSIVE DupReduct(_, _)
+DupReduct(D, T) ==
+    IF T = <<>> THEN D = <<>>
+    ELSE /\ D # <<>> /\ D[1] = T[1]
+         /\ LET rd == RunLen(D)  rt == RunLen(T) IN
+            rd <= rt /\ DupReduct(SubSeq(D, rd + 1, Len(D)), SubSeq(T, rt + 1, Len(T)))
+ToksUpToDups(ds, ts) == DupReduct(NormToks(ds), NormToks(ts))
 KeepIdx(ts) == {i \in 1..Len(ts) : i = 1 \/ ts[i] # ts[i - 1]}
 RestrictTo(s, keep) == [n \in 1..Cardinality(keep) |-> s[SetToSortSeq(keep, <)[n]]]
 \* what reading back the written form must give, computed with the spec's writer and reader
@@ -76,10 +88,14 @@ ReadBackToks(ts, nsrc, nnm) ==
 FlatRoundTrip(p1, p2) ==
     LET rb == ReadBackToks(p1.toks, Len(p1.sources), Len(p1.names)) IN
     /\ p2.kind = p1.kind
-    /\ rb.k = "ok" /\ ToksEq(p2.toks, rb.toks)
+    /\ rb.k = "ok" /\ Len(rb.toks) <= Len(p2.toks)          \* the specification's own writer + reader remove every repeat
+    /\ ToksUpToDups(rb.toks, p2.toks) /\ ToksUpToDups(p2.toks, p1.toks)
     /\ p2.sources = p1.sources /\ p2.names = p1.names /\ p2.contents = p1.contents
     /\ p2.file = p1.file /\ p2.root = p1.root /\ p2.debug_id = p1.debug_id /\ p2.ignore = p1.ignore
-    /\ (p1.kind = "hermes" => p2.scopes = RestrictTo(p1.scopes, KeepIdx(p1.toks)))
+    \* (repeats are exact, so they share their scope: tokens paired with scopes are reduced the same way)
+    /\ (p1.kind = "hermes" => /\ Len(p2.scopes) = Len(p2.toks) /\ Len(p1.scopes) = Len(p1.toks)
+                              /\ DupReduct([i \in DOMAIN p2.toks |-> <<Norm(p2.toks[i]), p2.scopes[i]>>],
+                                           [i \in DOMAIN p1.toks |-> <<Norm(p1.toks[i]), p1.scopes[i]>>]))
 
 RECURSIVE RoundTripEq(_, _)
 RoundTripEq(p1, p2) ==
@@ -103,7 +119,7 @@ FlatEncodeOK(p, d) ==
     /\ d.version = <<3>> /\ d.nulls = <<>> /\ ~Has(d.sections) /\ ~Has(d.debugId)
     /\ Has(d.mappings) /\ Has(d.sources) /\ Has(d.names)
     /\ LET r == DecodeR(Get(d.mappings), Len(p.sources), Len(p.names), RangeOf(d)) IN
-          r.k = "ok" /\ ToksEq(r.toks, DedupSeq(p.toks))
+          r.k = "ok" /\ ToksUpToDups(r.toks, p.toks)
     /\ ExpSources(d) = p.sources                       \* raw names + root give the map's sources
     /\ d.root = p.root                                 \* key absent iff the map has no root
     /\ AllStrings(Get(d.names)) /\ ExpNames(d) = p.names
